@@ -208,12 +208,27 @@ func (c *Ctx) Exec(id string, nontrivial bool, f func() Verdict) {
 		w, hung := withWatchdog(f, c.CaseTimeout)
 		if hung {
 			c.Hung = true
-			c.Broken("case %s hung on re-execution after failing with: %s", id, v.Detail)
-			return
+			v.Detail = unstableNote + v.Detail + "\n (a re-execution did not return)"
+			v.KF = ""
+			break
 		}
 		if w.OK != v.OK || w.KF != v.KF || w.Detail != v.Detail {
-			c.Broken("nondeterministic harness: case %s gave different verdicts on re-execution:\n first: %s\n again: %s", id, v.Detail, w.Detail)
-			return
+			if strings.Contains(v.Detail, "HARNESS") || strings.Contains(w.Detail, "HARNESS") {
+				c.Broken("harness problem: case %s gave different verdicts on re-execution:\n first: %s\n again: %s", id, v.Detail, w.Detail)
+				return
+			}
+			// The case builds all its objects afresh, so a verdict that changes
+			// between executions in one process means the library's behaviour
+			// depends on earlier calls (state shared between calls). The failing
+			// execution is a real execution of the real code: report it.
+			c.P.Counters["violations_not_reproducible_in_isolation"]++
+			again := "passes"
+			if !w.OK {
+				again = w.Detail
+			}
+			v.Detail = unstableNote + v.Detail + "\n on re-execution: " + again
+			v.KF = ""
+			break
 		}
 	}
 	if v.KF != "" {
@@ -260,6 +275,8 @@ func withWatchdog(f func() Verdict, d time.Duration) (v Verdict, hung bool) {
 		return Verdict{}, true
 	}
 }
+
+const unstableNote = "[outcome depends on earlier calls in the same process: re-executing this case, which builds all its objects afresh, gives a different verdict - hidden state shared between calls] "
 
 func safely(f func() Verdict) (v Verdict) {
 	defer func() {
